@@ -1,0 +1,97 @@
+//go:build verif
+// +build verif
+
+package backend
+
+// Add-only exports for the verification harness in /verif (build tag verif),
+// properties C27 (fuse recovery) and C28 (health checks).
+//
+// The health-check and fuse code reads the wall clock with time.Now() and the
+// master check runs inside a ticker loop; the harness drives both with a
+// virtual clock by patching time.Now / time.NewTicker at run time with the
+// module's existing github.com/bytedance/mockey dependency (the same
+// technique backend/slice_test.go uses). No call site is changed. (mockey prints
+// a one-line notice about -gcflags on stderr at start-up; the patches work
+// without it because time.Now and time.NewTicker are not inlined.)
+
+import (
+	"context"
+	"sync/atomic"
+	"time"
+
+	"github.com/bytedance/mockey"
+)
+
+var (
+	verifClock    int64 // virtual unix seconds returned by the patched time.Now
+	verifClockSet *mockey.Mocker
+)
+
+// VerifSetClock makes time.Now() return the given unix second (patching
+// time.Now on first use) until VerifClearClock is called.
+func VerifSetClock(unix int64) {
+	atomic.StoreInt64(&verifClock, unix)
+	if verifClockSet == nil {
+		verifClockSet = mockey.Mock(time.Now).To(func() time.Time {
+			return time.Unix(atomic.LoadInt64(&verifClock), 0)
+		}).Build()
+	}
+}
+
+// VerifClearClock removes the time.Now patch.
+func VerifClearClock() {
+	if verifClockSet != nil {
+		verifClockSet.UnPatch()
+		verifClockSet = nil
+	}
+}
+
+// VerifMasterRound runs exactly one ticker round of the real
+// checkBackendMasterStatus goroutine: time.NewTicker is patched to hand out a
+// ticker whose channel the hook owns, one tick is delivered, and the context
+// is cancelled so that the loop exits as soon as the round is over.
+func VerifMasterRound(s *Slice, downAfterNoAlive int) {
+	ch := make(chan time.Time) // unbuffered: the send returns when the loop took the tick
+	m := mockey.Mock(time.NewTicker).To(func(d time.Duration) *time.Ticker {
+		return &time.Ticker{C: ch}
+	}).Build()
+	defer m.UnPatch()
+	ctx, cancel := context.WithCancel(context.Background())
+	done := make(chan struct{})
+	go func() {
+		defer close(done)
+		s.checkBackendMasterStatus(ctx, downAfterNoAlive)
+	}()
+	select {
+	case ch <- time.Time{}:
+	case <-done: // the function returned before its loop (no master configured)
+	}
+	cancel()
+	<-done
+}
+
+// VerifCheckInstanceStatus exposes checkInstanceStatus.
+func VerifCheckInstanceStatus(name string, cp ConnectionPool, healthCheckSql string) (PooledConnect, error) {
+	return checkInstanceStatus(name, cp, healthCheckSql)
+}
+
+// VerifCheckSlaveSyncStatus exposes checkSlaveSyncStatus.
+func VerifCheckSlaveSyncStatus(pc PooledConnect, secondsBehindMaster int) (bool, error) {
+	return checkSlaveSyncStatus(pc, secondsBehindMaster)
+}
+
+// VerifHardState returns (coolingPeriod, lastFuseTime) of a hard cool-down strategy.
+func VerifHardState(s *HardCoolDownStrategy) (int64, int64) {
+	return s.coolingPeriod, s.lastFuseTime.Get()
+}
+
+// VerifGradualState returns (errorRecoveryCount, consecutiveSuccessCheckCount,
+// lastRecoveryTime, lastFuseTime) of a gradual recovery strategy.
+func VerifGradualState(g *GradualRecoveryStrategy) (int64, int64, int64, int64) {
+	return g.errorRecoveryCount.Get(), g.consecutiveSuccessCheckCount.Get(), g.lastRecoveryTime.Get(), g.lastFuseTime.Get()
+}
+
+// VerifConsts returns PingPeriod, maxPenalty, initErrorRecoveryCount, CheckRepeat.
+func VerifConsts() (int64, int64, int64, int64) {
+	return PingPeriod, maxPenalty, initErrorRecoveryCount, CheckRepeat
+}
